@@ -4,7 +4,7 @@
 W="$1"; ID="$2"; PROP="$3"
 set -e
 cd "$W"
-FLAGS="-std=c++14 -O2 $(jq -r '.demo_flags // "" | tostring' _out/meta.json | tr ' ' '\n' | grep -E '^-(m|D|march)' | grep -v '^-std' | sort -u | tr '\n' ' ')"
+FLAGS="-std=c++14 -O2 $(jq -r '.demo_flags // "" | tostring' _out/meta.json | sed 's/[(;].*//' | grep -oE -- '-(march=[A-Za-z0-9-]+|m[a-z0-9.]+|D[A-Za-z0-9_=]+)' | sort -u | tr '\n' ' ')"
 [ -n "$4" ] && FLAGS="-std=c++14 -O2 $4"
 git diff --quiet -- Fastor && git apply _out/patch.diff
 g++ $FLAGS -I "$W" _out/demo.cpp -o _out/demo_with 2>/dev/null
